@@ -382,8 +382,27 @@ def r4_unit_ids(ctx):
     return r
 
 
+def r5_registration(ctx):
+    """`exactly the translation units the request used`: with dynamic_load + ssr a unit is registered for embedding by *reading its string
+    table* (the accessor registers).  So the generated per-locale arms must read the table of the locale they render - always (also for
+    a value made of variables only), on every call (not cached in a static), through that locale's own accessor - and nothing else may
+    read a table (the Display `new` must not touch the tables of all locales).  Decided by evaluating the generators in that
+    configuration and reading the arms back (rules/gentext.py, shared with C03.R4 / C05.R7 / C18.R6)."""
+    from rules import gentext, absint as _ai
+    r = Rule("C17.R5", "generated arms register exactly the unit they render: each reads its own locale's table, always and on every call; nothing else reads a table",
+             "`the page embeds, for each translation unit used by the request, exactly that unit's strings ... and nothing for units the request did not use`: registration is a "
+             "side effect of the generated table accessors; an arm that skips the read (value without literal text), caches it in a static, or a constructor that reads every "
+             "locale's table changes which units are embedded", floor=3)
+    try:
+        gentext.check_locale_arms(ctx, r, rid="R5")
+        gentext.check_display_new_server(ctx, r, rid="R5")
+    except _ai.Unknown as u:
+        r.viol("R5:undecided", "the per-locale generators cannot be interpreted on the current code (%s): not decided on this tree (fail closed)" % str(u)[:300])
+    return r
+
+
 def run(ctx):
-    return [r1_escape(ctx), r2_who(ctx), r3_always(ctx), r4_unit_ids(ctx)]
+    return [r1_escape(ctx), r2_who(ctx), r3_always(ctx), r4_unit_ids(ctx), r5_registration(ctx)]
 
 
 MANIFEST_ENTRY = {
